@@ -6,6 +6,7 @@ from sa import AnalysisError
 from sa.kinds import (key, utext, call_name, recv_text, calls_in, node_calls, canon_compare, oriented,
                       loop_body_exits_early, all_stores)
 from sa.cfg import walk_calls, walk_nodes
+from sa.kinds import resolve_local
 from sa.astutil import canon_text as ct
 
 EXPLANATION = (
@@ -251,19 +252,38 @@ def _rest(ctx, rep):
     rep.check("self.closed and self.date_time_closed" in utext(esc.node) and
               "(datetime.datetime.utcnow() - self.date_time_closed).total_seconds()" in utext(esc.node), "R4",
               key(esc, None, "time since closure measured from the closing time"), esc)
+    from sa.kinds import key_removals
     srm = prog.own_method("BaseStrategy", "remove_market")
     cfgm = ctx.cfg(srm)
-    dels = [n for n in cfgm.live_nodes() if n.kind == "stmt" and isinstance(n.ast, ast.Delete)]
-    sel = [n for n in cfgm.live_nodes() if n.kind == "cond" and utext(n.exprs[0]).replace(" ", "") in (
-        "invested[0]==market_id", "market_id==invested[0]")]
-    rep.check(len(dels) == 1 and utext(dels[0].ast) == "del self._invested[i]" and len(sel) == 1, "R4",
-              key(srm, None, "runner contexts of exactly that market are released"), srm)
+    rms = key_removals(srm.node, "self._invested")
+    good = len(rms) == 1
+    if good:
+        node, ktxt = rms[0]
+        lps = [lp for lp in walk_nodes(srm.node.body, ast.For) if node in list(ast.walk(lp)) and utext(lp.target) == ktxt]
+        good = len(lps) == 1 and not loop_body_exits_early(lps[0]) and not walk_nodes(lps[0].body, (ast.If, ast.Continue))
+        if good:
+            # the keys removed: exactly those of self._invested whose first component is the market id
+            src = resolve_local(srm, lps[0].iter)
+            good = isinstance(src, ast.ListComp) and len(src.generators) == 1
+            if good:
+                g = src.generators[0]
+                v = utext(g.target)
+                good = utext(src.elt) == v and utext(g.iter) in ("self._invested", "list(self._invested)", "self._invested.keys()") \
+                    and [utext(c) for c in g.ifs] == [ct("%s[0] == %s" % (v, srm.params[1]))]
+            lpn = [x for x in cfgm.live_nodes() if x.kind == "for_init" and x.ast is lps[0]]
+            good = good and len(lpn) == 1 and cfgm.unconditional(lpn[0].id)
+    rep.check(good, "R4", key(srm, None, "runner contexts of exactly that market are released"), srm)
     mrm = prog.own_method("SimulatedMiddleware", "remove_market")
-    rep.check(any(utext(s) == "del self.markets[market.market_id]" for s in walk_nodes(mrm.node.body, ast.Delete)), "R4",
+    rep.check([k for n_, k in key_removals(mrm.node, "self.markets")] == ["market.market_id"], "R4",
               key(mrm, None, "the simulated middleware drops its analytics for the market"), mrm)
     mk_rm = prog.own_method("Markets", "remove_market")
-    rep.check(any(utext(s) == "del self._markets[market_id]" for s in walk_nodes(mk_rm.node.body, ast.Delete)), "R4",
-              key(mk_rm, None, "a removed market leaves the registry"), mk_rm)
+    cfgk = ctx.cfg(mk_rm)
+    rms = key_removals(mk_rm.node, "self._markets")
+    good = [k for n_, k in rms] == [mk_rm.params[1]]
+    if good:
+        nn = [x for x in cfgk.live_nodes() if x.ast is rms[0][0] or rms[0][0] in walk_calls(x.exprs)]
+        good = len(nn) == 1 and cfgk.unconditional(nn[0].id)
+    rep.check(good, "R4", key(mk_rm, None, "a removed market leaves the registry"), mk_rm)
 
     # ------------------------------------------------------------------ R5 results for every order
     closed_market_results(ctx, rep, "R5")
@@ -277,7 +297,7 @@ def closed_market_results(ctx, rep, R):
     ol = [lp for lp in walk_nodes(f.node.body, ast.For) if utext(lp.iter) == "self"]
     rl = [lp for lp in walk_nodes(f.node.body, ast.For) if utext(lp.iter) == "market_book.runners"]
     good = len(ol) == 1 and len(rl) == 1 and rl[0] in walk_nodes(ol[0].body, ast.For) and \
-        not loop_body_exits_early(ol[0]) and not loop_body_exits_early(rl[0]) and not walk_nodes(ol[0].body, ast.Continue)
+        not loop_body_exits_early(ol[0]) and not loop_body_exits_early(rl[0])
     rep.check(good, R, key(f, None, "every order of the blotter is matched against every runner of the final book"), f)
     want = {"order.runner_status": "runner.status", "order.market_type": "market_book.market_definition.market_type",
             "order.each_way_divisor": "market_book.market_definition.each_way_divisor"}
@@ -296,7 +316,9 @@ def closed_market_results(ctx, rep, R):
                tuple(sorted([("market_book.number_of_winners == 0", False), (ct("number_of_winners > market_book.number_of_winners"), True)])): "number_of_winners"}
     rep.check(dh == want_dh, R, key(f, None, "dead-heat count: more WINNER runners than the market's number of winners"), f, None, str(dh))
     nw = [s for s in walk_nodes(f.node.body, ast.Assign) if utext(s.targets[0]) == "number_of_winners"]
-    rep.check(len(nw) == 1 and "runner.status == 'WINNER'" in utext(nw[0].value) and utext(nw[0].value).startswith("len("), R,
+    from sa.kinds import counted
+    cnt = counted(nw[0].value) if len(nw) == 1 else None
+    rep.check(cnt is not None and cnt[1] == "market_book.runners" and cnt[2] == ["%s.status == 'WINNER'" % cnt[0]], R,
               key(f, None, "winners are counted from the final book"), f)
     lr = [n for n in cfg.live_nodes() if n.kind == "stmt" and isinstance(n.ast, ast.Assign) and utext(n.ast.targets[0]) == "order.line_range_result"]
     good = len(lr) == 1
